@@ -40,9 +40,14 @@ PJ == ABin("=", AIdx(Call1("json", AVal), AStr(a)), AStr(xx))
 \* a cascaded (two-level) field access: a fault inside its base must still be found
 PJ2 == ABin("=", AIdx(AIdx(Call1("json", ABin("+", AVal, AStr(<<>>))), AStr(a)), AStr(bb)), AStr(xx))
 PJ3 == ABin("=", AIdx(AIdx(Call1("json", Call1("lower", AVal)), AStr(a)), AInt(0)), AStr(xx))
-Atoms == {P1, P2, P3, P4, P5, P6, P7, P8, P9, P10, P11, P12, P13, P14, P15, P16, P17}
+\* the FIRST list element and the LOWER bound carry an operator (a fault inside them keeps their nominal type)
+P18 == AIn(AKey, <<ABin("+", AStr(a), AStr(bb)), AStr(bb)>>)
+P19 == ABetween(Call1("int", AVal), ABin("-", AInt(3), AInt(2)), AInt(5))
+P20 == AIn(Call1("strlen", AKey), <<ABin("*", AInt(1), AInt(2)), AInt(3)>>)
+Atoms == {P18, P19, P20, P1, P2, P3, P4, P5, P6, P7, P8, P9, P10, P11, P12, P13, P14, P15, P16, P17}
 SmallP == IF Scale >= 2 THEN {P1, P3, P5, P7, P10, P2} ELSE {P1, P3, P7}
 Wheres == Atoms \cup {PJ, PJ2, PJ3} \cup {ANot(p) : p \in Atoms}
+          \cup {ANot(ANot(p)) : p \in {P1, P3, P7}} \cup {ABin("&", P1, ANot(ANot(P7)))}      \* stacked negations
           \cup {ABin(op, p, q) : op \in {"&", "or"}, p \in SmallP, q \in SmallP}
           \cup {ABin("and", ANot(p), ABin("|", q, ANot(p))) : p \in SmallP, q \in SmallP}
           \cup {ABin(op, ANot(p), q) : op \in {"&", "|", "and", "or"}, p \in {P1, P3}, q \in {P7, P2}}
